@@ -321,6 +321,17 @@ type ModSet struct {
 }
 
 func intersectPats(a, b []string) []string {
+	// "*" preserves everything
+	for _, x := range a {
+		if x == "*" {
+			return append([]string{}, b...)
+		}
+	}
+	for _, y := range b {
+		if y == "*" {
+			return append([]string{}, a...)
+		}
+	}
 	var out []string
 	for _, x := range a {
 		for _, y := range b {
